@@ -88,9 +88,16 @@ def src_hash():
     return h.hexdigest()[:16]
 
 
-def run_probe(path, items, lang="c"):
-    os.makedirs(BUILD, exist_ok=True)
-    tag = re.sub(r"\W", "_", path)
+SNAPSHOT = os.path.join(os.path.dirname(os.path.abspath(__file__)), "consts_snapshot.json")
+NOTES = []
+
+
+def _snapshot():
+    return json.load(open(SNAPSHOT)) if os.path.exists(SNAPSHOT) else {}
+
+
+def _probe_once(path, items, lang, tag):
+    """compile and run one probe; returns dict or raises ExtractError"""
     src = os.path.join(BUILD, "probe_%s.%s" % (tag, "c" if lang == "c" else "cpp"))
     exe = os.path.join(BUILD, "probe_%s.exe" % tag)
     with open(src, "w") as f:
@@ -108,11 +115,14 @@ def run_probe(path, items, lang="c"):
     cc = ["gcc", "-std=gnu11"] if lang == "c" else ["g++", "-std=gnu++17"]
     cmd = cc + ["-w", "-DNDEBUG", "-I" + REPO, "-I" + os.path.join(REPO, "utcp"), src] + extra + ["-o", exe, "-lm"]
     p = subprocess.run(cmd, stdout=subprocess.PIPE, stderr=subprocess.STDOUT, text=True)
-    if p.returncode != 0:
-        raise ExtractError("probe for %s does not compile:\n%s" % (path, p.stdout[-2000:]))
-    out = subprocess.run([exe], stdout=subprocess.PIPE, text=True, timeout=20).stdout
-    os.remove(exe)
-    os.remove(src)
+    try:
+        if p.returncode != 0:
+            raise ExtractError("probe for %s does not compile:\n%s" % (path, p.stdout[-2000:]))
+        out = subprocess.run([exe], stdout=subprocess.PIPE, text=True, timeout=20).stdout
+    finally:
+        for f in (exe, src):
+            if os.path.exists(f):
+                os.remove(f)
     vals = {}
     for line in out.splitlines():
         k, v = line.split("=")
@@ -123,26 +133,83 @@ def run_probe(path, items, lang="c"):
     return vals
 
 
-def local_extent(fn, path, var):
+def run_probe(path, items, lang="c"):
+    """all items of one source file in one probe; if that does not compile (an identifier was renamed, a macro became a function, ...)
+    the items are probed one by one, a function-like spelling `name()` is tried for bare identifiers, and what still cannot be
+    evaluated keeps its snapshot value - with a note: that constant is then tied to the code by the correspondence runs only."""
+    os.makedirs(BUILD, exist_ok=True)
+    tag = re.sub(r"\W", "_", path)
+    try:
+        return _probe_once(path, items, lang, tag)
+    except ExtractError as whole:
+        snap = _snapshot()
+        vals = {}
+        import concurrent.futures
+
+        def one(ix):
+            lean, cexpr = items[ix]
+            variants = [cexpr] + ([cexpr + "()"] if re.fullmatch(r"\w+", cexpr) else [])
+            for v in variants:
+                try:
+                    return lean, _probe_once(path, [(lean, v)], lang, "%s_%d" % (tag, ix))[lean], v
+                except ExtractError:
+                    continue
+            return lean, None, None
+        with concurrent.futures.ThreadPoolExecutor(max_workers=8) as ex:
+            for lean, val, used in ex.map(one, range(len(items))):
+                if val is not None:
+                    vals[lean] = val
+                    if used != dict(items)[lean]:
+                        NOTES.append("constant %s: `%s` is no longer a constant expression in %s; evaluated as `%s`" % (lean, dict(items)[lean], path, used))
+                elif lean in snap:
+                    vals[lean] = snap[lean]
+                    NOTES.append("constant %s (`%s` in %s) can no longer be evaluated by the compiler; the last extracted value %d is kept and is tied to the code by the correspondence runs only" % (lean, dict(items)[lean], path, snap[lean]))
+                else:
+                    raise whole
+        return vals
+
+
+def local_extent(fn, path, var, lean=None):
     sys.path.insert(0, os.path.dirname(os.path.abspath(__file__)))
     import ctrans
-    node = ctrans.load_ast(path, "c", fn)
+    snap = _snapshot()
+    try:
+        node = ctrans.load_ast(path, "c", fn)
+    except ctrans.TransError as e:
+        if lean in snap:
+            NOTES.append("array extent %s: function %s is no longer found in %s; the last extracted value %d is kept (tie: correspondence runs under ASan)" % (lean, fn, path, snap[lean]))
+            return snap[lean]
+        raise ExtractError(str(e))
     found = []
+    arrays = []
 
     def walk(n):
-        if n.get("kind") == "VarDecl" and n.get("name") == var:
+        if n.get("kind") == "VarDecl":
             q = (n.get("type") or {}).get("qualType", "")
             m = re.search(r"\[(\d+)\]", q)
             if m:
-                found.append(int(m.group(1)))
+                arrays.append((n.get("name"), int(m.group(1))))
+                if n.get("name") == var:
+                    found.append(int(m.group(1)))
         for c in n.get("inner", []) or []:
             if isinstance(c, dict):
                 walk(c)
 
     walk(node)
-    if not found:
-        raise ExtractError("local array %s not found in %s" % (var, fn))
-    return found[0]
+    if found:
+        return found[0]
+    # the array was renamed: if the function has exactly one local array, or exactly one of the previous extent, that is the one
+    if len(arrays) == 1:
+        NOTES.append("array extent %s: local array %s of %s was renamed to %s" % (lean, var, fn, arrays[0][0]))
+        return arrays[0][1]
+    same = [a for a in arrays if lean in snap and a[1] == snap[lean]]
+    if len(same) == 1:
+        NOTES.append("array extent %s: local array %s of %s is no longer found by name; %s has the previous extent and is taken for it" % (lean, var, fn, same[0][0]))
+        return same[0][1]
+    if lean in snap:
+        NOTES.append("array extent %s: local array %s of %s is no longer found; the last extracted value %d is kept (tie: correspondence runs under ASan)" % (lean, var, fn, snap[lean]))
+        return snap[lean]
+    raise ExtractError("local array %s not found in %s" % (var, fn))
 
 
 _cache = None
@@ -155,7 +222,10 @@ def extract_consts():
     os.makedirs(BUILD, exist_ok=True)
     cache_file = os.path.join(BUILD, "consts-%s.json" % src_hash())
     if os.path.exists(cache_file):
-        _cache = json.load(open(cache_file))
+        c = json.load(open(cache_file))
+        NOTES[:] = c.pop("__notes__", [])
+        _cache = c
+        _write_notes()
         return _cache
     vals = {}
     for path, items in PROBES.items():
@@ -177,13 +247,18 @@ def extract_consts():
     os.remove(exe)
     os.remove(src)
     for fn, path, var, lean in LOCAL_EXTENTS:
-        vals[lean] = local_extent(fn, path, var)
+        vals[lean] = local_extent(fn, path, var, lean)
     for old in os.listdir(BUILD):
         if old.startswith("consts-") and old.endswith(".json"):
             os.remove(os.path.join(BUILD, old))
-    json.dump(vals, open(cache_file, "w"), indent=1, sort_keys=True)
+    json.dump(dict(vals, __notes__=list(NOTES)), open(cache_file, "w"), indent=1, sort_keys=True)
     _cache = vals
+    _write_notes()
     return vals
+
+
+def _write_notes():
+    json.dump(list(NOTES), open(os.path.join(BUILD, "regen_notes_extract.json"), "w"), indent=1)
 
 
 def write_lean(vals):
@@ -214,5 +289,12 @@ if __name__ == "__main__":
         print("extract: %s" % e, file=sys.stderr)
         sys.exit(2)
     write_lean(v)
+    for nt in NOTES:
+        print("extract: NOTE " + nt, file=sys.stderr)
+    if "--snapshot" in sys.argv[1:]:
+        if NOTES:
+            print("extract: cannot take a snapshot while values are kept from the previous one", file=sys.stderr)
+            sys.exit(2)
+        json.dump(v, open(SNAPSHOT, "w"), indent=1, sort_keys=True)
     if len(sys.argv) > 1 and sys.argv[1] == "--print":
         print(json.dumps(v, indent=1, sort_keys=True))
